@@ -175,8 +175,10 @@ SortByMinTimeFrom(rs, i, acc) ==
 SortByMinTime(rs) == SortByMinTimeFrom(rs, 1, <<>>)
 
 (* matrixMerge, one stream appended to what exists for that series.  *)
-RECURSIVE DropWhileLE(_, _)
-DropWhileLE(seq, m) == IF seq = <<>> \/ seq[1] > m THEN seq ELSE DropWhileLE(Tail(seq), m)
+(* SliceSamples: the suffix starting at the first timestamp strictly greater than m *)
+DropWhileLE(seq, m) ==
+    LET later == { i \in DOMAIN seq : seq[i] > m }
+    IN IF later = {} THEN <<>> ELSE SubSeq(seq, CHOOSE i \in later : \A j \in later : i <= j, Len(seq))
 MergeStream(existing, stream) ==
     IF existing = <<>> \/ stream = <<>> THEN existing \o stream
     ELSE LET last == existing[Len(existing)] IN
